@@ -1,2 +1,12 @@
 import BklProofs.C18
-#print axioms Bkl.C18_placeholder
+#print axioms Bkl.C18_walk_stays_inside
+#print axioms Bkl.C18_reads_inside
+#print axioms Bkl.C18_reads_inside_any
+#print axioms Bkl.C18_dotdot_escape_refused
+#print axioms Bkl.C18_absolute_link_refused
+#print axioms Bkl.C18_independent_walk
+#print axioms Bkl.C18_independent_open
+#print axioms Bkl.C18_independent
+#print axioms Bkl.C18_relTo_outside
+#print axioms Bkl.C18_outside_never_read
+#print axioms Bkl.C18_setRoot_nested
